@@ -99,3 +99,53 @@ package boltz
 //@   modifies *
 //@   ensures[database-untouched] dbSame()
 //@   lensures[a-referenced-entity-is-refused] !old(holderFailed[ctx.ErrHolder]) && rtHasElems(rtSymbol, str(ctx.RowId), bktHas, bktSub, bktVal) ==> holderFailed[ctx.ErrHolder]
+
+// ---- wiring: which constraints a store gets for a foreign key ----
+//@ func (*Indexer).AddConstraint
+//@   props C04
+//@   waive immutable wiring: constraints are appended while the stores are being set up, before any operation runs
+//@   modifies indexer.constraints
+//@   ensures[appended] len(indexer.constraints) == old(len(indexer.constraints)) + 1 && indexer.constraints[old(len(indexer.constraints))] == constraint && forall(i, 0 <= i && i < old(len(indexer.constraints)) ==> indexer.constraints[i] == old(indexer.constraints[i]))
+// acN: how many constraints have been added to other stores through the Constrained interface
+//@ ghost acN : Int private
+//@ func (Constrained).AddConstraint
+//@   modifies *, acN
+//@   ensures[counted] acN == old(acN) + 1
+// fk index (nullable or not): the referencing store maintains the back-reference set, the referenced store refuses to
+// delete a referenced entity
+//@ func (*Indexer).addFkIndex
+//@   props C04
+//@   nosafety
+//@   modifies *, acN
+//@   ensures[the-referenced-store-gets-its-delete-constraint] acN == old(acN) + 1
+//@   callpre[the-fk-index-with-the-requested-nullability] (*Indexer).AddConstraint@1: istype(arg0, *fkIndex) && as(arg0, *fkIndex).symbol == symbol && as(arg0, *fkIndex).fkSymbol == fkSymbol && as(arg0, *fkIndex).nullable == nullable
+//@   callpre[the-referenced-store-restricts-deletes] (Constrained).AddConstraint@1: ref(recv) == symStoreOf(fkSymbol) && istype(arg0, *fkDeleteConstraint) && as(arg0, *fkDeleteConstraint).symbol == fkSymbol && as(arg0, *fkDeleteConstraint).fkSymbol == symbol
+//@ func (*Indexer).AddFkIndex
+//@   props C04
+//@   nosafety
+//@   modifies *, acN
+//@   ensures[one-delete-constraint] acN == old(acN) + 1
+//@   callpre[not-nullable] addFkIndex@1: recv == indexer && arg0 == symbol && arg1 == fkSymbol && !arg2
+//@ func (*Indexer).AddNullableFkIndex
+//@   props C04
+//@   nosafety
+//@   modifies *, acN
+//@   ensures[one-delete-constraint] acN == old(acN) + 1
+//@   callpre[nullable] addFkIndex@1: recv == indexer && arg0 == symbol && arg1 == fkSymbol && arg2
+// fk index with cascade: deleting the referenced entity deletes its referrers
+//@ func (*Indexer).AddFkIndexCascadeDelete
+//@   props C04
+//@   nosafety
+//@   modifies *, acN
+//@   ensures[the-referenced-store-gets-its-delete-constraint] acN == old(acN) + 1
+//@   callpre[a-non-nullable-fk-index] (*Indexer).AddConstraint@1: istype(arg0, *fkIndex) && as(arg0, *fkIndex).symbol == symbol && as(arg0, *fkIndex).fkSymbol == fkSymbol && !as(arg0, *fkIndex).nullable
+//@   callpre[the-referenced-store-cascades-deletes] (Constrained).AddConstraint@1: ref(recv) == symStoreOf(fkSymbol) && istype(arg0, *fkDeleteCascadeConstraint) && as(arg0, *fkDeleteCascadeConstraint).symbol == symbol && as(arg0, *fkDeleteCascadeConstraint).cascadeType == CascadeDelete
+// fk constraint: existence check on the referencing store; restrict or cascade on the linked store unless the caller
+// asks for create/update checks only
+//@ func (*Indexer).AddFkConstraint
+//@   props C04
+//@   nosafety
+//@   modifies *, acN
+//@   ensures[delete-behaviour-wired-unless-create-update-only] acN == old(acN) + ite(cascade != CascadeCreateUpdate, 1, 0)
+//@   callpre[the-existence-check-with-the-requested-nullability] (*Indexer).AddConstraint@1: istype(arg0, *fkConstraint) && as(arg0, *fkConstraint).symbol == symbol && as(arg0, *fkConstraint).nullable == nullable
+//@   callpre[the-linked-store-restricts-or-cascades-as-requested] (Constrained).AddConstraint@1: ref(recv) == symLinked(symbol) && istype(arg0, *fkDeleteCascadeConstraint) && as(arg0, *fkDeleteCascadeConstraint).symbol == symbol && as(arg0, *fkDeleteCascadeConstraint).cascadeType == cascade
